@@ -16,10 +16,11 @@ import itertools
 LEAF_EXPR = {
     "g": None,  # numbered per position
     "lf": "lf()", "ff": "ff()", "ffh": "ffh()", "df": "df()", "dfh": "dfh()", "dfc": "dfc()",
-    "tg1": "tg1()", "tg1d": "tg1d()", "tg2": "tg2()", "on": "on()", "os": "os()",
+    "tg1": "tg1()", "on": "on()", "os": "os()",
     "rldlf": "rld(lf())", "bxlf": "bx(lf())", "arcffh": "arc(ffh())", "osffh": "Some(ffh())", "rlddfc": "rld(dfc())",
 }
-TARGET_LEAVES = {"tg1", "tg1d", "tg2"}
+# Targets with two directives or a default level came back undecided (10 GB / 540 s): outside the claim (C11)
+TARGET_LEAVES = {"tg1"}
 
 
 def triples(leaf):
@@ -131,7 +132,7 @@ def filter_shapes():
     out.append((("and", "on", "lf"), "thorough"))
     out.append((("or", "on", "ffh"), "thorough"))
     out.append((("or", "df", "dfh"), "thorough"))
-    out.append((("and", "df", "tg1d"), "thorough"))
+    out.append((("and", "df", "tg1"), "thorough"))
     # depth 2 over concrete leaves: a fixed, rotating selection
     ring = ["lf", "ffh", "dfc", "df", "on", "ff", "dfh", "os", "tg1"]
     forms = [
@@ -163,7 +164,7 @@ def filter_shapes():
 
 # elements of a stack: generic truthful layer, None, one-element Vec, and the real leaves used as global-filter layers
 ELEM = {"g": None, "n": "nl()", "v1": None, "lf": "lf()", "ff": "ff()", "ffh": "ffh()", "df": "df()", "dfh": "dfh()",
-        "dfc": "dfc()", "tg1": "tg1()", "tg2": "tg2()", "os": "os()", "on": "on()", "rlf": "rld(lf())",
+        "dfc": "dfc()", "tg1": "tg1()", "os": "os()", "on": "on()", "rlf": "rld(lf())",
         "bg": None}
 
 
@@ -195,12 +196,33 @@ NEST = {
 }
 
 
+def elem_interests(e):
+    """interest values an element can answer (as a global-filter layer)"""
+    if e in ("g", "v1", "bg"):
+        return {0, 1, 2}
+    if e == "n":
+        return {2}
+    if e == "rlf":
+        return {0, 2}
+    return {i for (i, _e, _h) in triples(e)}
+
+
+def stack_cov(es):
+    """which interests the stack (elements inner..outer, then the generic root) can publish: an outer `never` /
+    `sometimes` is the answer, an outer `always` defers to what is inside (pick_interest)"""
+    res = {0, 1, 2}  # the root
+    for e in es:  # inner .. outer
+        ie = elem_interests(e)
+        res = ({0} if 0 in ie else set()) | ({1} if 1 in ie else set()) | (res if 2 in ie else set())
+    return dict(never=0 in res, sometimes=1 in res, always=2 in res, en=True, dis=True, above_hint=True)
+
+
 def stack_shapes():
     """-> [(name, nest_key, elems(inner..outer), tier)]"""
     out = []
     for e in ("g", "n", "v1", "lf"):
         out.append(("s1_" + e, "s1", (e,), "quick"))
-    for e in ("ff", "ffh", "df", "dfh", "dfc", "tg1", "tg2", "os", "on", "rlf", "bg"):
+    for e in ("ff", "ffh", "df", "dfh", "dfc", "tg1", "os", "on", "rlf", "bg"):
         out.append(("s1_" + e, "s1", (e,), "quick" if e in ("dfc", "rlf") else "thorough"))
     for nk, es in (("tree", ("ffh", "dfc")), ("list", ("tg1", "lf")), ("tree", ("g", "rlf")), ("list", ("rlf", "g")),
                    ("tree", ("os", "g")), ("list", ("on", "ffh")), ("tree", ("bg", "n")), ("list", ("v1", "bg"))):
@@ -257,9 +279,10 @@ def harnesses(tier="thorough"):
         counter, recs = [0], []
         exprs = [elem_rust(e, counter, recs) for e in es]
         stack = NEST[len(es)][nk].format(*exprs)
-        targets = any(e in ("tg1", "tg2") for e in es)
+        targets = any(e in TARGET_LEAVES for e in es)
         body = ("    let q = any_q(%s);\n    let root = groot(&q);\n    let s = %s;\n"
-                "    check_stack(&s, &[%s], &q, ALL);\n" % ("true" if targets else "false", stack, ", ".join(recs)))
+                "    check_stack(&s, &[%s], &q, %s);\n" % ("true" if targets else "false", stack, ", ".join(recs),
+                                                                 cov_rust(stack_cov(es))))
         fn = "c08_s_" + nm
         src = ATTR % (6 if targets else 5) + "fn %s() {\n%s}\n" % (fn, body)
         out.append((fn, tr, "stack shape %s (elements inner..outer: %s): register_callsite / max_level_hint vs enabled "
